@@ -1,15 +1,11 @@
 #!/bin/sh
-# usage: [WT=/tmp/name] run_matrix.sh <out-file> <patch>...
-# Applies each seeded change to a scratch worktree of /repo HEAD (outside /repo and /verif),
-# runs every property's rules once (tibcvet matrix) and records which fire. The worktree is
-# removed at the end.
-OUT=$1; shift
-WT=${WT:-/tmp/seedmatrix_wt}
+# usage: variants_run.sh <worktree-name> <out-file> <patch>...  - applies each patch to a scratch worktree of /repo HEAD, runs all rules (tibcvet matrix)
+WT=/tmp/$1; OUT=$2; shift; shift
 git -C /repo worktree remove --force $WT >/dev/null 2>&1
 git -C /repo worktree add --detach $WT HEAD >/dev/null 2>&1 || exit 3
 : > "$OUT"
 for P in "$@"; do
-  name=$(basename "$(dirname "$P")")/$(basename "$P")
+  name=$(echo "$P" | sed 's#^/tmp/##; s#/out/#-#; s#\.patch\.diff$##; s#/#-#g')
   git -C $WT checkout -q -- . ; git -C $WT clean -fdq
   if ! git -C $WT apply "$P" 2>/dev/null; then echo "$name DOES-NOT-APPLY" >> "$OUT"; continue; fi
   /verif/tool/bin/tibcvet matrix $WT | grep -v " ok " | sed "s#^#$name: #" >> "$OUT"
